@@ -410,6 +410,163 @@ def judge_bystander(case, sess, conn, spec, dev):
     return None
 
 
+# ------------------------------------------------------------------------------------------------
+# datagrams: the real UDP loop
+# ------------------------------------------------------------------------------------------------
+PEERS = [("10.1.0.1", 1001), ("10.1.0.2", 1002), ("10.1.0.3", 1003), ("10.1.9.9", 1999)]
+MUST_ANSWER = {}
+
+
+def must_answer_kinds():
+    """(command, payload) of the non-tag requests the UDP loop answers when they arrive alone (established on the
+    real code, once per process): they must be answered in every company too"""
+    if MUST_ANSWER:
+        return MUST_ANSWER
+    for name, b in g.OTHER_VALID.items():
+        case = {"budget": 488, "tags": [{"name": "A", "type": "INT", "len": 2, "addr": None}]}
+        dev = lc.Device(case)
+        run.install_counter()
+        run.reset_globals(dev)
+        try:
+            run.Counter.budget = None
+            sess, th, conn, ctl = run.run_udp(dev, [(b, PEERS[0])])
+            th.join(60)
+            sp = w.split_frame(b)
+            if sp and len(conn.sent) == 1 and conn.sent[0][:2] == b[:2]:
+                MUST_ANSWER[(sp[0]["cmd"], sp[1])] = name
+        finally:
+            dev.close()
+    MUST_ANSWER[("probed",)] = True
+    return MUST_ANSWER
+
+
+def run_udp_case(case):
+    import sys
+    sys.unraisablehook = lambda *a: None     # abandoned parser generators of dropped datagrams complain on stderr
+    must_answer_kinds()          # (builds devices of its own: before this case's device exists)
+    dev = lc.Device(case)
+    run.install_counter()
+    run.reset_globals(dev)
+    try:
+        return _run_udp_case(case, dev)
+    finally:
+        run.Counter.budget = None
+        dev.close()
+
+
+def _run_udp_case(case, dev):
+    kinds_ok = must_answer_kinds()
+    run.reset_globals(dev)
+    dgrams = [(bytes.fromhex(h), PEERS[p]) for h, p in case["dgrams"]]
+    nbytes = sum(len(b) for b, _ in dgrams)
+    addrs = {k: list(v) for k, v in dev.addrs.items()}
+    symbols = {t["name"].lower(): tuple(dev.addrs[t["name"]]) for t in case["tags"]}
+    objs = {(2, 1)} | {(a[0], a[1]) for a in symbols.values()}
+    spec = Spec(case, addrs)
+    complaints = []
+    stats = {"kinds": [], "exc": [], "steps": 0, "bytes": nbytes}
+    bound = run.STEP_A * nbytes + run.STEP_B + 300 * len(dgrams)
+    run.Counter.count = 0
+    run.Counter.budget = run.HANG_FACTOR * bound
+    dump0 = dev.dump()
+    sess, th, conn, ctl = run.run_udp(dev, dgrams)
+    th.join(120)
+    steps = run.Counter.count
+    run.Counter.budget = None
+    stats["steps"] = steps
+    if th.is_alive():
+        complaints.append("the datagram loop did not end when told to (hang)")
+        ctl["done"] = True
+    if steps > bound:
+        complaints.append(f"{steps} engine steps for {nbytes} bytes in {len(dgrams)} datagrams exceeds the linear bound")
+    if len(conn.dumps) < len(dgrams):
+        complaints.append(f"the datagram loop took only {len(conn.dumps)} of {len(dgrams)} datagrams")
+    by_dg = {}
+    for rec in sess.calls:
+        by_dg.setdefault(rec["dg"], []).append(rec)
+    sends = {}
+    for (k, addr), b in zip(conn.sent_meta, conn.sent):
+        sends.setdefault(k, []).append((addr, b))
+    outs, infos = [], []
+    for k, (b, peer) in enumerate(dgrams):
+        dump = conn.dumps[k] if k < len(conn.dumps) else (conn.dumps[-1] if conn.dumps else dump0)
+        sp = w.split_frame(b)
+        recs = by_dg.get(k, [])
+        sent = sends.get(k, [])
+        # replies go to the sender of the datagram being handled, one at most
+        if len(sent) > 1:
+            complaints.append(f"datagram #{k}: {len(sent)} replies")
+        for addr, _ in sent:
+            if addr != peer:
+                complaints.append(f"datagram #{k} from {peer}: reply addressed to {addr}")
+        if len(recs) > 1:
+            complaints.append(f"datagram #{k} was processed {len(recs)} times")
+        if not recs:
+            outs.append("I@" + dump)
+            infos.append("k-")
+            stats["kinds"].append("I")
+            if sp is not None and sp[0]["cmd"] != 0 or (sp is not None and sp[1]):
+                pass
+            if sp is not None:
+                complaints.append(f"datagram #{k} from {peer} holds a complete frame (command {sp[0]['cmd']:#x}) "
+                                  f"but was not processed")
+            if sent:
+                complaints.append(f"datagram #{k}: a reply without a processed request")
+            continue
+        rec = recs[0]
+        rec["dump"] = dump
+        if sp is None:
+            complaints.append(f"datagram #{k} holds no complete frame but a request was processed")
+            outs.append("?@" + dump)
+            infos.append("k-")
+            continue
+        hdr, pl, _rest = sp
+        if rec["hdr"] != (hdr["cmd"], hdr["len"], hdr["session"]):
+            complaints.append(f"datagram #{k} from {peer}: header parsed as {rec['hdr']}, sent "
+                              f"{hdr['cmd'], hdr['len'], hdr['session']} (bytes of another datagram?)")
+        if rec.get("peer") != peer:
+            complaints.append(f"datagram #{k} from {peer} processed as coming from {rec.get('peer')}")
+        fb = w.enc_frame(hdr["cmd"], pl, session=hdr["session"], status=hdr["status"], ctx=hdr["ctx"],
+                         options=hdr["options"])
+        reply = sent[0][1] if sent else None
+        tok, info, kind = token_for(fb, rec, symbols, objs, reply)
+        outs.append(tok + "@" + dump)
+        infos.append(info)
+        stats["kinds"].append(kind + ("x" if "exc" in rec else ""))
+        if "exc" in rec:
+            stats["exc"].append(rec["exc"])
+            if not rec.get("exc_ok", True):
+                complaints.append(f"datagram #{k}: {rec['exc']} left logix.process (not an ordinary Exception)")
+        if kind == "D" and tok.startswith("D!"):
+            complaints.append(f"datagram #{k}: well-formed request not parsed as such by the implementation")
+        # every valid request gets exactly its reply, whatever its neighbours are
+        must = kind == "D" or (hdr["status"] == 0 and (hdr["cmd"], pl) in kinds_ok)
+        if must:
+            if reply is None:
+                complaints.append(f"datagram #{k} from {peer}: a valid request (command {hdr['cmd']:#x}) got no reply")
+            elif reply[:2] != fb[:2] or reply[12:20] != hdr["ctx"]:
+                complaints.append(f"datagram #{k} from {peer}: the reply is not the reply to this request "
+                                  f"(command/context {reply[:2].hex()}/{reply[12:20].hex()})")
+    # tags change only through accepted well-formed writes
+    for rec in sorted([r for r in sess.calls if "seq" in r], key=lambda r: r["seq"]):
+        cp, members, cip, eff = rec["cp"]
+        for m, mreply in members:
+            why = spec.apply(m, mreply)
+            if why:
+                complaints.append(f"datagram #{rec['dg']}: {why}")
+        why = spec.check_dump(rec.get("dump", dump0))
+        if why:
+            complaints.append(f"datagram #{rec['dg']}: {why}")
+            break
+    why = spec.check_dump(dev.dump())
+    if why:
+        complaints.append("after the last datagram: " + why)
+    line = (";".join(outs) if outs else "-") + f"#{len(outs)}"
+    return {"line": line, "info": ";".join(infos) if infos else "-", "tagline": dev.tag_line(case), "addrs": addrs,
+            "chunks": [h for h, _ in case["dgrams"]], "pre": "-",
+            "verdict": complaints[0] if complaints else None, "stats": stats}
+
+
 def run_engine_case(case):
     line = run.run_engine(case)
     passes = int(line.split(":")[0])
@@ -492,6 +649,8 @@ def _pool_run(case):
             return run_engine_case(case)
         if case["mode"] == "n":
             return run_nested_case(case)
+        if case["mode"] == "u":
+            return run_udp_case(case)
         return run_case(case)
     except run.Hang:
         run.Counter.budget = None
@@ -524,7 +683,9 @@ class C08(Suite):
             "other objects) truncated and bit-flipped; random mutations (field, bitflip, delete, insert, truncate, append, "
             "overwrite, re-lengthed damage) of random valid frames on random devices; connected sessions); mode e: small "
             "machines (exhaustive 2-state, random <= 5 states, epsilon cycles) on the real automata engine; mode n: "
-            "Multiple Service Packets nested in one another. non-trivial = a case with at least one frame outside the "
+            "Multiple Service Packets nested in one another; mode u: datagram sequences from 2-3 peers through the real "
+            "enip_srv_udp (valid requests, trailing bytes, truncations, mutations, noise; systematic frame+tail / "
+            "truncation followed by another peer's valid request). non-trivial = a case with at least one frame outside the "
             "well-formed grammar (refused, answered by something else, quirk-accepted, incomplete), a machine that makes "
             ">= 2 passes, or a nested bundle; distinct by the bytes sent")
     assumptions = [
@@ -727,6 +888,9 @@ class C08(Suite):
                     chunks.append(g.OTHER_VALID["fwd_close"].hex())
             yield {"mode": "p", "budget": 488, "tags": tg, "chunks": chunks, "mut": "connected"}
 
+        # 8. datagrams from 2-3 peers through the real UDP loop
+        yield from self.gen_udp(quick, rng)
+
         # 6. Multiple Service Packets nested in one another (small depths: the parsers' work per level)
         for _ in range(100 if quick else 1500):
             tg = lg.rand_tags(rng, max_tags=3)
@@ -747,6 +911,61 @@ class C08(Suite):
                 b = struct.pack("<HH", rng.choice([0x6f, 0x70, 0x65, 0x63, 0x04, 0x01, 0x66]), ln - 24) + b[4:]
             yield {"mode": "s", "budget": 488, "tags": tg, "chunks": [x.hex() for x in g.chunked(rng, b)], "peer": n,
                    "mut": "noise"}
+
+    def gen_udp(self, quick, rng):
+        def ctxd(b, rng):
+            """the same frame with a sender context of its own"""
+            return b[:12] + bytes(rng.randrange(1, 256) for _ in range(8)) + b[20:] if len(b) >= 24 else b
+        probe = [ctxd(g.OTHER_VALID["list_identity"], rng).hex(), 3]
+        # systematic: (frame + 0.. trailing bytes | every truncation step) from one peer, then a valid request of another
+        tags = [{"name": "A", "type": "INT", "len": 4, "addr": None}]
+        wr = bytes(g.b_frame({"op": "wt", "path": [["s", "A"]], "ty": 0xc3, "n": 1, "vals": [7]}).b)
+        rd = bytes(g.b_frame({"op": "rt", "path": [["s", "A"]], "n": 4}, wrapped=False).b)
+        firsts = [g.OTHER_VALID["list_identity"], g.OTHER_VALID["register"], wr]
+        seconds = [g.OTHER_VALID["list_identity"], rd, wr]
+        for f in firsts:
+            variants = [f + bytes(range(1, t + 1)) for t in (0, 1, 2, 3, 23, 24, 25, 48, 100)]
+            variants += [f[:n] for n in ((1, 23, 24, len(f) - 1) if quick else range(1, len(f)))]
+            variants += [f + f, f + f[:30]]
+            for v in variants:
+                for s2 in seconds:
+                    yield {"mode": "u", "budget": 488, "tags": tags, "mut": "systematic",
+                           "dgrams": [[ctxd(v, rng).hex(), 0], [ctxd(s2, rng).hex(), 1], [ctxd(v, rng).hex(), 1],
+                                      [ctxd(s2, rng).hex(), 0], probe]}
+        for _ in range(250 if quick else 6000):
+            tg = lg.rand_tags(rng, max_tags=3)
+            npeers = rng.choice([2, 3])
+            dgs, kinds = [], set()
+            for _ in range(rng.randint(3, 12)):
+                r = rng.random()
+                if r < 0.35:
+                    fb, _r = g.valid_frame(rng, tg)
+                    b, kind = bytes(fb.b), "valid"
+                elif r < 0.50:
+                    b, kind = g.OTHER_VALID[rng.choice(["list_identity", "list_services", "list_interfaces", "register",
+                                                        "legacy", "unregister", "gaa_identity"])], "valid"
+                elif r < 0.65:
+                    fb, _r = g.valid_frame(rng, tg)
+                    base = bytes(fb.b) if rng.random() < 0.6 else g.OTHER_VALID[rng.choice(["list_identity", "register"])]
+                    b, kind = base + bytes(rng.randrange(256) for _ in range(rng.choice([1, 2, 4, 24, 30, 60]))), "trailing"
+                elif r < 0.78:
+                    fb, _r = g.valid_frame(rng, tg)
+                    b = bytes(fb.b)
+                    b, kind = b[:rng.randrange(1, len(b))], "truncated"
+                elif r < 0.93:
+                    kind, b = self.hostile(rng, tg)
+                    kind = kind.split(":")[0]
+                else:
+                    b, kind = bytes(rng.randrange(256) for _ in range(rng.choice([1, 8, 24, 40, 100]))), "noise"
+                if not b:
+                    continue
+                if kind in ("valid", "trailing") and rng.random() < 0.7:
+                    b = ctxd(b, rng)
+                kinds.add(kind)
+                dgs.append([b.hex(), rng.randrange(npeers)])
+            dgs.append(probe)
+            yield {"mode": "u", "budget": rng.choice([488, 488, 100]), "tags": tg, "dgrams": dgs,
+                   "mut": sorted(kinds - {"valid"})[0] if kinds - {"valid"} else "valid"}
 
     def hostile(self, rng, tg):
         r = rng.random()
@@ -800,7 +1019,7 @@ class C08(Suite):
         res = self._res(c)
         if res["tagline"] is None:
             return "c08-not-run"
-        chunks = res.get("chunks", c["chunks"])
+        chunks = res.get("chunks", c.get("chunks"))
         return (f"c08 {c['mode']} {c['budget']} {res['tagline']} {res.get('pre', '-')} "
                 f"{','.join(chunks) if chunks else '-'} {res['info']}")
 
@@ -810,6 +1029,8 @@ class C08(Suite):
     def known_key(self, c):
         if c["mode"] in ("e", "n"):
             return self.model_line(c)
+        if c["mode"] == "u":
+            return json.dumps({k: c[k] for k in ("mode", "budget", "tags", "dgrams")}, sort_keys=True)
         return json.dumps({k: c[k] for k in ("mode", "budget", "tags", "chunks")}, sort_keys=True)
 
     def nontrivial(self, c, out):
@@ -819,6 +1040,10 @@ class C08(Suite):
             return self.model_line(c) if first.isdigit() and int(first) >= 2 else None
         if c["mode"] == "n":
             return self.model_line(c)
+        if c["mode"] == "u":
+            kinds = self._res(c)["stats"]["kinds"]
+            return (hashlib.sha1(json.dumps(c["dgrams"]).encode()).hexdigest()
+                    if any(k[0] in "OQI" for k in kinds) and any(k[0] in "DO" for k in kinds) else None)
         kinds = self._res(c)["stats"]["kinds"]
         if any(k[0] in "OQI" for k in kinds):
             return hashlib.sha1((json.dumps(c["chunks"]) + c["mode"]).encode()).hexdigest()
@@ -837,6 +1062,18 @@ class C08(Suite):
 
     def shrink(self, c):
         if c["mode"] == "n":
+            return
+        if c["mode"] == "u":
+            dg = c["dgrams"]
+            for i in range(len(dg)):
+                if len(dg) > 1:
+                    yield dict(c, dgrams=dg[:i] + dg[i + 1:])
+            for i, (h, p) in enumerate(dg):
+                if len(h) > 48 + 8:
+                    yield dict(c, dgrams=dg[:i] + [[h[:48] + h[48:][:len(h[48:]) // 4 * 2], p]] + dg[i + 1:])
+            if len(c["tags"]) > 1:
+                for i in range(len(c["tags"])):
+                    yield dict(c, tags=c["tags"][:i] + c["tags"][i + 1:])
             return
         if c["mode"] == "e":
             for i in range(len(c["edges"])):
